@@ -75,11 +75,13 @@ func runC21(c *eng.Ctx) {
 			call, ok := v.(*ssa.Call)
 			return ok && eng.CalleeIs(call, "builtin.len") && eng.MentionsField(call.Call.Args[0], "Entry.HardLinkId")
 		}, func(v ssa.Value) bool { k, ok := eng.ConstInt(v); return ok && k == 0 }, token.EQL)
-		cut := eng.MergeEdges(eng.PassEdges(fn, eng.ErrNil(eng.ErrOf(dh[0]))), eng.PassEdges(fn, noLink))
+		// ... or the delete is the second half of a rename (the name was re-created with the same link id: see WHO-moving)
+		moving := eng.PassEdges(fn, eng.BoolCall(true, "filer.isMovingEntry"))
+		cut := eng.MergeEdges(eng.PassEdges(fn, eng.ErrNil(eng.ErrOf(dh[0]))), eng.PassEdges(fn, noLink), moving)
 		if len(eng.PassEdges(fn, noLink)) == 0 {
 			cut = nil
 		}
-		c.Guard("SIB-hardlink-write", "unlink-before-delete", fn, eng.Entry(fn), st, cut, "a name carrying a link id is removed only after the shared counter was decremented successfully")
+		c.Guard("SIB-hardlink-write", "unlink-before-delete", fn, eng.Entry(fn), st, cut, "a name carrying a link id is removed only after the shared counter was decremented successfully, or as the second half of a move")
 	}
 	if fn := c.NeedFunc("weed/filer", "(*FilerStoreWrapper).handleUpdateToHardLinks"); fn != nil {
 		dh := eng.Find(fn, eng.PlainCallTo("filer.FilerStoreWrapper).DeleteHardLink"))
@@ -223,6 +225,59 @@ func runC21(c *eng.Ctx) {
 	c.Expect("SIB-hardlink-read", 6)
 
 	releasedOnce(c, "COLLECT-hardlinks")
+	// WHO-moving: a delete may skip the release of its link only when the same request re-created the name with the same
+	// link id: the "moving" mark is made in moveSelfEntry only, handed to nothing but the delete of the old name, and that
+	// delete is reached only after the create of the new entry (whose literal copies HardLinkId and HardLinkCounter, see
+	// FIELDS-entry-clone) succeeded
+	if mk := P.Func("weed/filer", "WithMovingEntry"); mk != nil {
+		callers := P.CallersOf(mk)
+		for i, cs := range callers {
+			fn := cs.Parent()
+			c.Touch(fn)
+			okFn := eng.NameIs(eng.FuncName(fn), "server.FilerServer).moveSelfEntry", "weed_server.FilerServer).moveSelfEntry")
+			okUse := cs.Value() != nil
+			if okUse {
+				for _, r := range *cs.Value().Referrers() {
+					call, isCall := r.(*ssa.Call)
+					if !isCall || !eng.CalleeIs(call, "filer.Filer).DeleteEntryMetaAndData") || eng.Arg(call, 0) != ssa.Value(cs.Value()) {
+						okUse = false
+						continue
+					}
+					create := eng.Find(fn, eng.PlainCallTo("filer.Filer).CreateEntry"))
+					if len(create) != 1 {
+						okUse = false
+						continue
+					}
+					if hit, _ := eng.Search(eng.Entry(fn), eng.Is(call), eng.SearchOpt{Cut: eng.PassEdges(fn, eng.ErrNil(eng.ErrOf(create[0])))}); hit != nil {
+						okUse = false
+					}
+					lit := eng.Arg(create[0].(ssa.CallInstruction), 1)
+					copies := 0
+					if al, isAl := eng.Unwrap(lit).(*ssa.Alloc); isAl {
+						for _, ref := range *al.Referrers() {
+							if fa, isFA := ref.(*ssa.FieldAddr); isFA {
+								for _, rr := range *fa.Referrers() {
+									if st, isSt := rr.(*ssa.Store); isSt && (eng.FieldSpec(fa) == "Entry.HardLinkId" && eng.MentionsField(st.Val, "Entry.HardLinkId") || eng.FieldSpec(fa) == "Entry.HardLinkCounter" && eng.MentionsField(st.Val, "Entry.HardLinkCounter")) {
+										copies++
+									}
+								}
+							}
+						}
+					}
+					if copies != 2 {
+						okUse = false
+					}
+				}
+			}
+			c.Ob("WHO-moving", fmt.Sprintf("%s marks-move#%d", eng.FuncName(fn), i), okFn && okUse, cs.Pos(),
+				"the mark that lets a delete keep the link count is made only by the rename step, only for the delete of the old name, and only after the new name was created with the same link id and counter")
+		}
+		if len(callers) == 0 {
+			c.Undecided("WHO-moving", "discovery", mk.Pos(), "WithMovingEntry has no caller")
+		}
+	} else {
+		c.Undecided("WHO-moving", "discovery", token.NoPos, "filer.WithMovingEntry not found")
+	}
 	// (5) COLLECT-hardlinks: a recursive directory delete drops the children from the store wholesale, so the
 	// identities of the removed names are collected on the way (own children and, through the recursion, all
 	// deeper levels) and each collected occurrence is released exactly once
